@@ -17,21 +17,36 @@ SHAPES = {"a": (2,), "b": (), "W": (2, 3), "c": (1,)}
 SCALES = {"a": np.array([1.0, 10.0]), "b": 100.0, "W": np.array([[0.5, 2.0, 8.0], [30.0, 0.1, 4.0]]), "c": np.array([0.01])}
 
 
-def case(col, kind, keys, diag, rng, T=40):
+def mk_iface(iface):
+    """(model interface, function dict -> model state of that interface)"""
+    import collections
+    import dataclasses
+    if iface == "dict":
+        return gs.DictInterface(lambda s: 0.0), dict
+    if iface == "namedtuple":
+        NT = collections.namedtuple("State", list(SHAPES))
+        return gs.NamedTupleInterface(lambda s: 0.0), lambda d: NT(**d)
+    DC = dataclasses.make_dataclass("State", [(k_, object) for k_ in SHAPES])
+    jax.tree_util.register_pytree_node(DC, lambda o: ([getattr(o, k_) for k_ in SHAPES], None), lambda aux, ch: DC(*ch))
+    return gs.DataclassInterface(lambda s: 0.0), lambda d: DC(**d)
+
+
+def case(col, kind, keys, diag, rng, T=40, iface="dict"):
     hist = {k: jnp.asarray(rng.normal(size=(T,) + SHAPES[k]) * SCALES[k], dtype=jnp.float32) for k in SHAPES}
-    ms = {k: jnp.zeros(SHAPES[k], dtype=jnp.float32) for k in SHAPES}
+    model, mk_state = mk_iface(iface)
+    ms = mk_state({k: jnp.zeros(SHAPES[k], dtype=jnp.float32) for k in SHAPES})
     K = gs.NUTSKernel if kind == "NUTS" else gs.HMCKernel
     k = K(list(keys), initial_step_size=0.1, mm_diag=diag)
-    k.set_model(gs.DictInterface(lambda s: 0.0))
+    k.set_model(model)
     key = jax.random.PRNGKey(0)
     ks = k.init_state(key, ms)
     ep = EpochConfig(EpochType.SLOW_ADAPTATION, T, 1, None).to_state(1, 0)
     out = k._tune_slow(key, ks, ms, ep, hist)
     got = np.asarray(out.kernel_state.inverse_mass_matrix)
-    own = {kk: hist[kk] for kk in keys}
-    flat = np.asarray(jax.vmap(lambda p: ravel_pytree(p)[0])(own), dtype=np.float64)
+    # the flat coordinates the matrix scales: the kernel's OWN position (whatever object the interface returns for it) flattened as blackjax does, per draw
+    flat = np.asarray([np.asarray(ravel_pytree(k.position(mk_state({kk: hist[kk][t] for kk in SHAPES})))[0]) for t in range(T)], dtype=np.float64)
     want = np.var(flat, axis=0, ddof=1) + 0.001 if diag else np.atleast_2d(np.cov(flat, rowvar=False)) + 0.001 * np.eye(flat.shape[1])
-    inp = {"kernel": kind, "position_keys": list(keys), "diagonal": diag, "shapes": {kk: list(SHAPES[kk]) for kk in keys}}
+    inp = {"kernel": kind, "position_keys": list(keys), "diagonal": diag, "shapes": {kk: list(SHAPES[kk]) for kk in keys}, "interface": iface}
     if got.shape != want.shape or not np.allclose(got, want, rtol=2e-3, atol=1e-6):
         col.add({"sig": "native::mm::alignment", "what": f"tuned inverse mass {'vector' if diag else 'matrix'} is not the regularised variance/covariance of the "
                  f"history in flat-position order: got diag {np.diag(got).round(3).tolist() if got.ndim == 2 else got.round(3).tolist()}, "
@@ -63,7 +78,9 @@ def engine_case(col, kind, keys, diag, seed):
     """two slow-adaptation epochs through the real engine with a second kernel on other keys"""
     K = gs.NUTSKernel if kind == "NUTS" else gs.HMCKernel
     b = gs.EngineBuilder(seed=seed, num_chains=2)
-    b.set_epochs([EpochConfig(EpochType.INITIAL_VALUES, 1, 1, None), EpochConfig(EpochType.SLOW_ADAPTATION, 30, 1, None), EpochConfig(EpochType.SLOW_ADAPTATION, 30, 1, None)])
+    # a BURNIN epoch directly before the first slow window: its draws are not part of "that epoch's recorded history"
+    b.set_epochs([EpochConfig(EpochType.INITIAL_VALUES, 1, 1, None), EpochConfig(EpochType.BURNIN, 30, 1, None), EpochConfig(EpochType.SLOW_ADAPTATION, 30, 1, None),
+                  EpochConfig(EpochType.SLOW_ADAPTATION, 30, 1, None)])
     sc = {k: jnp.asarray(SCALES[k], dtype=jnp.float32) for k in SHAPES}
     b.set_model(gs.DictInterface(lambda s: sum(-0.5 * jnp.sum((s[k] / sc[k]) ** 2) for k in SHAPES)))
     b.set_initial_values({k: jnp.zeros(SHAPES[k], dtype=jnp.float32) for k in SHAPES})
@@ -75,12 +92,12 @@ def engine_case(col, kind, keys, diag, seed):
     eng.sample_all_epochs()
     res = eng.get_results()
     inp = {"kernel": kind, "position_keys": list(keys), "diagonal": diag, "engine": True}
-    for e in (1, 2):
+    for e in (2, 3):
         pos = res.positions.get_specific_chain(e).get().unwrap()
         own = {kk: np.asarray(pos[kk]) for kk in keys}
         nxt = res.kernel_states.unwrap().get_specific_chain(e).get().unwrap()[0].inverse_mass_matrix
         # the matrix in force after tuning of epoch e: read it from the engine's final states / next epoch's first state
-        after = np.asarray(eng._kernel_states[0].inverse_mass_matrix) if e == 2 else np.asarray(res.kernel_states.unwrap().get_specific_chain(2).get().unwrap()[0].inverse_mass_matrix)[:, 0]
+        after = np.asarray(eng._kernel_states[0].inverse_mass_matrix) if e == 3 else np.asarray(res.kernel_states.unwrap().get_specific_chain(3).get().unwrap()[0].inverse_mass_matrix)[:, 0]
         for c in range(2):
             flat = np.asarray(jax.vmap(lambda p: ravel_pytree(p)[0])({kk: jnp.asarray(own[kk][c]) for kk in keys}), dtype=np.float64)
             want = np.var(flat, axis=0, ddof=1) + 0.001 if diag else np.atleast_2d(np.cov(flat, rowvar=False)) + 0.001 * np.eye(flat.shape[1])
@@ -102,6 +119,13 @@ def bounded(tier, seed):
             for diag in (True, False):
                 case(col, kind, keys, diag, rng)
                 n += 1
+    for iface in ("namedtuple", "dataclass"):
+        for kind, keys, diag in (("NUTS", ("b", "a"), True), ("HMC", ("c", "W", "b"), False)):
+            try:
+                case(col, kind, keys, diag, rng, iface=iface)
+            except Exception as e:
+                col.add({"sig": f"native::mm::exception::{type(e).__name__}", "what": f"{iface}: {str(e)[:200]}", "input": {"interface": iface, "kernel": kind}})
+            n += 1
     for kind in ("NUTS", "HMC"):
         for diag in (True, False):
             offset_case(col, kind, diag, rng)
@@ -117,7 +141,7 @@ def bounded(tier, seed):
         "evaluations": col.evals, "distinct_nontrivial": n,
         "rule": (f"BOUNDED: real NUTSKernel/HMCKernel._tune_slow on seeded random histories (40 draws) for {len(key_sets)} position-key tuples (non-alphabetical orders, "
                  "scalar / vector / (2,3)-matrix / length-1 parameters with very different scales, foreign keys present in the history), diagonal and dense mode; a history with mean 1000 and sd 0.1 (float32 cancellation); "
-                 "expected = var(ddof=1)+0.001 / cov+0.001*I of the history flattened with ravel_pytree per draw. one real engine run (thorough: two, and all key permutations) with "
+                 "expected = var(ddof=1)+0.001 / cov+0.001*I of the kernel's own position (kernel.position(state), DictInterface; NamedTupleInterface and DataclassInterface for two key tuples) flattened with ravel_pytree per draw. one real engine run (thorough: two, and all key permutations) with "
                  f"two slow-adaptation epochs and a co-existing RW kernel: the matrix in force after each epoch is computed from that epoch's own stored history. seed={seed}"),
         "samples": [{"kernel": "NUTS", "position_keys": ["b", "a"], "diagonal": True}, {"kernel": "HMC", "position_keys": ["c", "W", "b"], "diagonal": False}],
         "exhaustive": False, "violations": col.violations,
